@@ -129,8 +129,12 @@ def known_keys():
     return {(k['property'], k['rule'], k['key']) for k in known}
 
 
-def evaluate(v: Variant, src_root: Path):
-    """Returns dict(vid, kind, verdict in ok|FAILED|skipped, detail)."""
+def evaluate(v: Variant, src_root: Path, only=None):
+    """Returns dict(vid, kind, verdict in ok|FAILED|skipped, detail).  `only`: evaluate on this property alone."""
+    if only is not None:
+        from dataclasses import replace
+
+        v = replace(v, props=(only,), rules=tuple(r for r in v.rules if r.startswith(only)) if v.kind == 'M' else v.rules)
     scratch = Path(tempfile.mkdtemp(prefix='mpsa-selftest-'))
     try:
         (scratch / 'src').mkdir()
@@ -168,23 +172,45 @@ def evaluate(v: Variant, src_root: Path):
 
 
 def _eval(args):
-    vid, root = args
+    vid, root, only = args
     from selftest.catalogue import VARIANTS
 
     v = next(x for x in VARIANTS if x.vid == vid)
     try:
-        return evaluate(v, Path(root))
+        return evaluate(v, Path(root), only)
     except Exception as e:  # noqa: BLE001
         import traceback
 
         return {'vid': v.vid, 'kind': v.kind, 'verdict': 'FAILED', 'detail': f'selftest crashed: {type(e).__name__}: {e} {traceback.format_exc()[-300:]}'}
 
 
-def run_variants(variants, src_root=None, jobs=16):
+def run_variants(variants, src_root=None, jobs=16, only=None):
     from concurrent.futures import ProcessPoolExecutor
 
     src_root = str(src_root or os.environ.get('MPSA_REPO') or '/repo')
     if len(variants) <= 1 or jobs <= 1:
-        return [_eval((v.vid, src_root)) for v in variants]
+        return [_eval((v.vid, src_root, only)) for v in variants]
     with ProcessPoolExecutor(max_workers=min(jobs, len(variants))) as ex:
-        return list(ex.map(_eval, [(v.vid, src_root) for v in variants]))
+        return list(ex.map(_eval, [(v.vid, src_root, only) for v in variants]))
+
+
+def thorough_for(prop: str, seed: int = 0):
+    """Self-test restricted to one property: its mutants must be reported by THIS property's check, every
+    equivalent rewrite that lists it must leave THIS check silent.  Returns (summary dict, failures)."""
+    import random
+
+    from selftest.catalogue import VARIANTS
+
+    vs = [v for v in VARIANTS if prop in v.props and (v.kind == 'E' or any(r.startswith(prop) for r in v.rules) or not v.rules)]
+    random.Random(seed).shuffle(vs)
+    res = run_variants(vs, only=prop)
+    failed = [r for r in res if r['verdict'] == 'FAILED']
+    summary = {
+        'selftest_variants': len(res),
+        'selftest_mutants_reported': sum(1 for r in res if r['kind'] == 'M' and r['verdict'] == 'ok'),
+        'selftest_equivalents_silent': sum(1 for r in res if r['kind'] == 'E' and r['verdict'] == 'ok'),
+        'selftest_skipped': [f"{r['vid']}: {r['detail']}" for r in res if r['verdict'] == 'skipped'],
+        'selftest_failed': [f"{r['vid']}: {r['detail']}" for r in failed],
+        'selftest_samples': [f"{r['vid']} ({r['kind']}): {r['detail'][:160]}" for r in res[:12]],
+    }
+    return summary, failed
